@@ -101,7 +101,8 @@ def cbOfJson (j : Json) : Except String (Option Cb) :=
   if j.isNull then pure none else do
     let t ← (← j.getObjVal? "tok").getNat?
     let k ← (← j.getObjVal? "kind").getStr?
-    pure (some ⟨t, if k == "coro" then .coro else if k == "call" then .call else .fn⟩)
+    pure (some ⟨t, if k == "coro" then .coro else if k == "call" then .call
+                      else if k == "raises" then .raises else .fn⟩)
 
 def inputOfJson (j : Json) : Except String Input := do
   let op ← (← j.getObjVal? "op").getStr?
@@ -140,7 +141,7 @@ def cerrName : CErr → String
   | .valueError => "ValueError"
 
 def kindName : CbKind → String
-  | .fn => "fn" | .coro => "coro" | .call => "call"
+  | .fn => "fn" | .coro => "coro" | .call => "call" | .raises => "raises"
 
 def jsArr (xs : List J) : Json := Json.arr (xs.map jToJson).toArray
 
